@@ -333,9 +333,8 @@ def write_evidence(prop, tier, base, agg, nviol, known_hits, extra=None):
         faults_fired=dict(agg["faults"]),
         probes=dict(agg["probes"]),
         features=dict(sorted(agg["features"].items())[:120]),
-        abstract_states=len(agg["states"]),
-        step_cap_runs=agg["outcomes"].get("step_cap", 0),
-        harness_errors=len(agg["harness"]),
+        diagnostics=dict(step_cap_runs=agg["outcomes"].get("step_cap", 0), harness_errors=len(agg["harness"]),
+                         abstract_states=len(agg["states"])),
         determinism_selfcheck=dict(runs_compared=agg["det_checked"], mismatches=len(agg["det_mismatch"]),
                                    how="same seeds re-run in a fresh interpreter with PYTHONHASHSEED=77; full event digests compared"),
         known_findings_hit=known_hits,
